@@ -147,7 +147,7 @@ fn drain(b: &mut Box<dyn BookDyn>, d: &Value) -> Result<Value, String> {
 }
 
 fn replay_one(cfg: &Cfg, idx: u64, path: &[Value], exp: &Value, dr: &Value, s: &mut Stats) {
-    let mut books: Vec<Box<dyn BookDyn>> = vec![new_book(cfg.levels, bourse_verif_harness::time_r(cfg.t0), cfg.tick, cfg.trading)];
+    let mut books: Vec<Box<dyn BookDyn>> = vec![new_book(cfg.levels, bourse_verif_harness::time_r(cfg.t0), cfg.tick * bourse_verif_harness::price_scale(), cfg.trading)];
     let mut problem: Option<String> = None;
     let mut last_ret = Value::Null;
     for (k, l) in path.iter().enumerate() {
@@ -272,6 +272,7 @@ fn main() {
             }
             "--time-scale" => { bourse_verif_harness::TIME_SCALE.store(args[i + 1].parse().unwrap(), std::sync::atomic::Ordering::Relaxed); i += 1 }
             "--time-offset" => { bourse_verif_harness::TIME_OFFSET.store(args[i + 1].parse().unwrap(), std::sync::atomic::Ordering::Relaxed); i += 1 }
+            "--price-scale" => { bourse_verif_harness::PRICE_SCALE.store(args[i + 1].parse().unwrap(), std::sync::atomic::Ordering::Relaxed); i += 1 }
             "--vol-scale" => { bourse_verif_harness::VOL_SCALE.store(args[i + 1].parse().unwrap(), std::sync::atomic::Ordering::Relaxed); i += 1 }
             "--trunc-every" => { cfg.trunc_every = args[i + 1].parse().unwrap(); i += 1 }
             "--case" => { single = Some(args[i + 1].clone()); i += 1 }
